@@ -1047,7 +1047,14 @@ class UnknownNode:
                             ('Incorrect attribute type where value {}'
                              ' of type {} was required').format(
                                 value, type(value)))
-                if node.get_value() != value:
+                try:
+                    node_value = node.get_value()
+                except Exception:
+                    # not a valid value for its type, e.g. 0x_ for an int
+                    raise RecognitionError((
+                        'Invalid attribute value {} where {} was required'
+                            ).format(value_node.value, value))
+                if node_value != value:
                     raise RecognitionError((
                         'Incorrect attribute value {} where {} was required'
                             ).format(value_node.value, value))
@@ -1082,7 +1089,12 @@ class UnknownNode:
                 node = Node(value_node)
                 if not node.is_scalar(type(value)):
                     return
-                if node.get_value() == value:
+                try:
+                    node_value = node.get_value()
+                except Exception:
+                    # not a valid value at all, so not the given value
+                    continue
+                if node_value == value:
                     raise RecognitionError(
                             (
                                 'Incorrect attribute value {} where {} was not'
